@@ -67,14 +67,14 @@ def _seqs(tier):
             continue
         out.append(list(seq) + ['V'])
     # two-entry requests (suffix ab) and longer interleavings
-    picked = [['Rab', 'W0ab', 'F0', 'V'], ['W0ab', 'W0ab', 'V'], ['W1ab', 'W0ab', 'Aa', 'V'], ['Rab', 'W0ab', 'Aa', 'Ab', 'V'],
+    picked = [['Rab', 'W0ab', 'F0', 'V'], ['W0ab', 'W0ab', 'V'], ['W1ab', 'W0ab', 'Aa', 'V']] + ([['Rab', 'W0ab', 'Aa', 'Ab', 'V']] if tier == 'thorough' else []) + [
               ['R', 'W0', 'W0', 'F0', 'V'], ['R', 'W1', 'W0', 'F0', 'V'], ['R', 'W0', 'V', 'F0', 'V']]
     if tier == 'thorough':
         picked += [['R', 'W0', 'W1', 'W0', 'F0', 'V'], ['R', 'W2', 'F0', 'V', 'Aa', 'V']]
     # a callback that frees resources from inside the check makes an earlier, already skipped waiter feasible
     # the pool a waiter needs is created only later (first add_resources for that name)
     picked += [['W0u', 'Au', 'V'], ['W0u', 'V', 'Au', 'V'], ['W0u', 'W0', 'Au', 'Au', 'V']]
-    picked += [['R', 'Rb', 'W0', 'W3b', 'F1', 'V', 'V'], ['R', 'W0', 'W4b', 'Ab', 'V']]
+    picked += [['R', 'Rb', 'W0', 'W3b', 'F1', 'V', 'V'], ['R', 'W0', 'W4b', 'V']]
     if tier == 'thorough':
         picked += [['R', 'Rb', 'W0', 'W3b', 'F1', 'V', 'W0', 'V']]
     if tier == 'thorough':
